@@ -1,5 +1,6 @@
 import Plotink.Model.C08
 import Plotink.Proofs.C08
+import Plotink.Proofs.C08Gen
 
 /-! # C08 — segment clipping returns exactly the part of the segment inside the rectangle
 
@@ -129,5 +130,87 @@ example : ∃ s', clipSegment ⟨3, 1, 3, 1⟩ ⟨⟨3, 1⟩, ⟨7, 5⟩⟩ = .o
   exact ⟨s', h⟩
 example : Rect.Valid ⟨0, 0, 10, 10⟩ ∧ Rect.Valid ⟨3, 1, 3, 1⟩ := by
   simp [Rect.Valid]
+
+/-! ## The same statements about the SOURCE-REGENERATED code
+
+`Gen.clip_code` / `Gen.clip_segment` are regenerated from `plotink/plot_utils.py` by the translator on every run
+(`lean/Plotink/Gen/clip_code.lean`, `clip_segment.lean`); the theorems below are about those definitions, in exact
+arithmetic (`Rounding.exact`), for every fuel ≥ 5 (the `while True` loop is translated with an explicit fuel).
+Coordinates are Python `int`s or `float`s in any mixture (`Py.IsNum v q`: `v` is `.flt q` or an `.int` equal to
+`q`); `C08.EncSeg`/`C08.EncRect` say that a value is a list `[[a, b], [c, d]]` of such numbers. Proofs:
+`Proofs/C08Gen.lean` (one generated loop pass = one unfolding of the model's loop, then induction on the fuel). -/
+
+open Py in
+/-- `clip_code`, regenerated: the outcode of the numeric values — for every rounding mode and whatever the tags
+(the function only compares) -/
+theorem C08_gen_clip_code (R : Rounding) (amb : Nat) (x y x0 x1 y0 y1 : Py.Val) :
+    Gen.clip_code R amb x y x0 x1 y0 y1
+      = .int (clipCode (num x) (num y) ⟨num x0, num y0, num x1, num y1⟩ : Nat) :=
+  clip_code_bridge R amb x y x0 x1 y0 y1
+
+/-- **bridge** `Gen.clip_segment = C08.clipSegment` (all-`float` encoding, as an equation) -/
+theorem C08_gen_bridge (amb fuel : Nat) (hf : 5 ≤ fuel) (r : Rect) (s : Seg) :
+    Gen.clip_segment Rounding.exact amb fuel (encSeg s) (encRect r) = encResult (clipSegment r s) :=
+  clip_segment_bridge_flt amb fuel hf r s
+
+/-- **bridge**, `int`/`float` mixtures: the generated code returns `(accept, segment)` with the model's accept
+flag and a segment whose numbers encode the model's segment -/
+theorem C08_gen_bridge_num (amb fuel : Nat) (hf : 5 ≤ fuel) (r : Rect) (s : Seg) (vs vr : Py.Val)
+    (hs : EncSeg Py.IsNum vs s) (hr : EncRect Py.IsNum vr r) :
+    ∃ acc s' vs', clipSegment r s = .ok (some (acc, s')) ∧ EncSeg Py.IsNum vs' s' ∧
+      Gen.clip_segment Rounding.exact amb fuel vs vr = .val (.tup [.bool_ acc, vs']) :=
+  clip_segment_bridge Py.enc_isNum amb fuel hf r s vs vr hs hr
+
+/-- `C08_total` for the regenerated code: with fuel ≥ 5 it returns a pair `(accept, segment)` — the fuel does not
+run out, no exception, and the segment is again a list of numbers -/
+theorem C08_gen_total (amb fuel : Nat) (hf : 5 ≤ fuel) (r : Rect) (s : Seg) (vs vr : Py.Val)
+    (hs : EncSeg Py.IsNum vs s) (hr : EncRect Py.IsNum vr r) :
+    ∃ acc vs' s', Gen.clip_segment Rounding.exact amb fuel vs vr = .val (.tup [.bool_ acc, vs']) ∧
+      EncSeg Py.IsNum vs' s' := by
+  obtain ⟨acc, s', vs', _, hvs', hg⟩ := C08_gen_bridge_num amb fuel hf r s vs vr hs hr
+  exact ⟨acc, vs', s', hg, hvs'⟩
+
+/-- `C08_accept_iff` for the regenerated code -/
+theorem C08_gen_accept_iff (amb fuel : Nat) (hf : 5 ≤ fuel) (r : Rect) (s : Seg) (vs vr : Py.Val)
+    (hs : EncSeg Py.IsNum vs s) (hr : EncRect Py.IsNum vr r) (acc : Bool) (vs' : Py.Val)
+    (h : Gen.clip_segment Rounding.exact amb fuel vs vr = .val (.tup [.bool_ acc, vs'])) :
+    acc = true ↔ ∃ t, 0 ≤ t ∧ t ≤ 1 ∧ Inside r (On s t) := by
+  obtain ⟨acc0, s', vs0, hm, _, hg⟩ := C08_gen_bridge_num amb fuel hf r s vs vr hs hr
+  rw [hg] at h
+  injection h with h; injection h with h; injection h with h1 _; injection h1 with h1
+  subst h1
+  exact C08_accept_iff r s acc0 s' hm
+
+/-- `C08_exact` for the regenerated code: on accept the returned list encodes `(On s t0, On s t1)`, `0 ≤ t0 ≤ t1 ≤ 1`,
+and the points of the input segment inside the rectangle are exactly those with parameter in `[t0, t1]` -/
+theorem C08_gen_exact (amb fuel : Nat) (hf : 5 ≤ fuel) (r : Rect) (s : Seg) (vs vr : Py.Val)
+    (hs : EncSeg Py.IsNum vs s) (hr : EncRect Py.IsNum vr r) (vs' : Py.Val)
+    (h : Gen.clip_segment Rounding.exact amb fuel vs vr = .val (.tup [.bool_ true, vs'])) :
+    ∃ s' t0 t1, EncSeg Py.IsNum vs' s' ∧ 0 ≤ t0 ∧ t0 ≤ t1 ∧ t1 ≤ 1 ∧ s'.a = On s t0 ∧ s'.b = On s t1 ∧
+      ∀ t, 0 ≤ t → t ≤ 1 → (Inside r (On s t) ↔ t0 ≤ t ∧ t ≤ t1) := by
+  obtain ⟨acc0, s', vs0, hm, hvs0, hg⟩ := C08_gen_bridge_num amb fuel hf r s vs vr hs hr
+  rw [hg] at h
+  injection h with h; injection h with h; injection h with h1 h2; injection h1 with h1
+  injection h2 with h2 _
+  subst h1; subst h2
+  obtain ⟨t0, t1, a0, a01, a1, ea, eb, hin⟩ := C08_exact r s s' hm
+  exact ⟨s', t0, t1, hvs0, a0, a01, a1, ea, eb, hin⟩
+
+/-- non-vacuity: a concrete segment with `int` and `float` coordinates and an `int` rectangle meet the hypotheses,
+and the generated code accepts it (the segment starts inside) -/
+example : EncSeg Py.IsNum (.tup [.tup [.int 3, .flt (1/2)], .tup [.int 7, .int 5]]) ⟨⟨3, 1/2⟩, ⟨7, 5⟩⟩ ∧
+    EncRect Py.IsNum (.tup [.tup [.int 0, .int 0], .tup [.int 4, .int 3]]) ⟨0, 0, 4, 3⟩ :=
+  ⟨⟨_, _, _, _, rfl, Or.inr ⟨3, rfl, by norm_num⟩, Or.inl rfl, Or.inr ⟨7, rfl, by norm_num⟩, Or.inr ⟨5, rfl, by norm_num⟩⟩,
+   ⟨_, _, _, _, rfl, Or.inr ⟨0, rfl, by norm_num⟩, Or.inr ⟨0, rfl, by norm_num⟩, Or.inr ⟨4, rfl, by norm_num⟩,
+     Or.inr ⟨3, rfl, by norm_num⟩⟩⟩
+example : ∃ vs', Gen.clip_segment Rounding.exact 53 5 (encSeg ⟨⟨3, 1⟩, ⟨7, 5⟩⟩) (encRect ⟨0, 0, 4, 3⟩)
+    = .val (.tup [.bool_ true, vs']) := by
+  obtain ⟨acc, vs', s', h, _⟩ := C08_gen_total 53 5 (le_refl _) ⟨0, 0, 4, 3⟩ ⟨⟨3, 1⟩, ⟨7, 5⟩⟩ _ _
+    (Enc4.mono (fun _ _ => Py.IsFlt.isNum) (encSeg_isFlt _)) (Enc4.mono (fun _ _ => Py.IsFlt.isNum) (encRect_isFlt _))
+  have := (C08_gen_accept_iff 53 5 (le_refl _) _ _ _ _
+    (Enc4.mono (fun _ _ => Py.IsFlt.isNum) (encSeg_isFlt _)) (Enc4.mono (fun _ _ => Py.IsFlt.isNum) (encRect_isFlt _)) acc vs' h).2
+    ⟨0, le_refl _, zero_le_one, by norm_num [Inside, On]⟩
+  subst this
+  exact ⟨vs', h⟩
 
 end Plotink
